@@ -15,6 +15,7 @@ import Driver.Sampling
 import Driver.Phantoms
 import Driver.Overstatement
 import Driver.SampleSize
+import Driver.Raire
 open Lean Shangrla Shangrla.Drv
 
 def dispatch (g op : String) (a : Json) : R Json :=
@@ -31,6 +32,7 @@ def dispatch (g op : String) (a : Json) : R Json :=
   | "phantoms" => PhantomsH.handle op a
   | "overstatement" => OverstatementH.handle op a
   | "samplesize" => SSH.handle op a
+  | "raire" => RaireH.handle op a
   | _ => throw s!"unknown group {g}"
 
 def handleLine (line : String) : String :=
